@@ -56,28 +56,31 @@ Record wf := { w_children : list child;
                w_imap : kmap; w_omap : kmap;
                w_vals : list (nat * Z);                 (* absent = NOT_DATA *)
                w_next : nat;
-               w_cache : option (list (string * option Z)) }.
+               w_cache : option (list (string * option Z));
+               w_shelf : list child }.                  (* removed node objects still held by the user, newest first *)
 
 Definition init_wf (im om : kmap) : wf :=
   {| w_children := []; w_conns := []; w_imap := im; w_omap := om; w_vals := []; w_next := 0;
-     w_cache := None |}.
+     w_cache := None; w_shelf := [] |}.
 
 Definition set_children st cs := {| w_children := cs; w_conns := w_conns st; w_imap := w_imap st;
-  w_omap := w_omap st; w_vals := w_vals st; w_next := w_next st; w_cache := w_cache st |}.
+  w_omap := w_omap st; w_vals := w_vals st; w_next := w_next st; w_cache := w_cache st; w_shelf := w_shelf st |}.
 Definition set_conns st cn := {| w_children := w_children st; w_conns := cn; w_imap := w_imap st;
-  w_omap := w_omap st; w_vals := w_vals st; w_next := w_next st; w_cache := w_cache st |}.
+  w_omap := w_omap st; w_vals := w_vals st; w_next := w_next st; w_cache := w_cache st; w_shelf := w_shelf st |}.
 Definition set_vals st vs := {| w_children := w_children st; w_conns := w_conns st; w_imap := w_imap st;
-  w_omap := w_omap st; w_vals := vs; w_next := w_next st; w_cache := w_cache st |}.
+  w_omap := w_omap st; w_vals := vs; w_next := w_next st; w_cache := w_cache st; w_shelf := w_shelf st |}.
 Definition set_next st n := {| w_children := w_children st; w_conns := w_conns st; w_imap := w_imap st;
-  w_omap := w_omap st; w_vals := w_vals st; w_next := n; w_cache := w_cache st |}.
+  w_omap := w_omap st; w_vals := w_vals st; w_next := n; w_cache := w_cache st; w_shelf := w_shelf st |}.
 Definition set_cache st c := {| w_children := w_children st; w_conns := w_conns st; w_imap := w_imap st;
-  w_omap := w_omap st; w_vals := w_vals st; w_next := w_next st; w_cache := c |}.
+  w_omap := w_omap st; w_vals := w_vals st; w_next := w_next st; w_cache := c; w_shelf := w_shelf st |}.
+Definition set_shelf st sh := {| w_children := w_children st; w_conns := w_conns st; w_imap := w_imap st;
+  w_omap := w_omap st; w_vals := w_vals st; w_next := w_next st; w_cache := w_cache st; w_shelf := sh |}.
 Definition set_kmap st (d : dir) (m : kmap) :=
   match d with
   | DIn => {| w_children := w_children st; w_conns := w_conns st; w_imap := m; w_omap := w_omap st;
-              w_vals := w_vals st; w_next := w_next st; w_cache := w_cache st |}
+              w_vals := w_vals st; w_next := w_next st; w_cache := w_cache st; w_shelf := w_shelf st |}
   | DOut => {| w_children := w_children st; w_conns := w_conns st; w_imap := w_imap st; w_omap := m;
-               w_vals := w_vals st; w_next := w_next st; w_cache := w_cache st |}
+               w_vals := w_vals st; w_next := w_next st; w_cache := w_cache st; w_shelf := w_shelf st |}
   end.
 
 Definition chans (d : dir) (c : child) : list (string * nat) :=
@@ -161,7 +164,7 @@ Definition value_dict (st : wf) (p : panel) : list (string * option Z) :=
   map (fun e => (fst e, val st (snd e))) p.
 
 (* ---- results ---------------------------------------------------------------------------- *)
-Inductive exc := TypeErr | ValueErr | AttrErr | KeyErr | DupErr | NoRef | CycleErr.
+Inductive exc := TypeErr | ValueErr | AttrErr | KeyErr | DupErr | NoRef | CycleErr | Skip.
 Inductive res := ROk | RExc (e : exc) | RRet (l : list (string * option Z)).
 
 (* ---- editing the graph ------------------------------------------------------------------- *)
@@ -200,15 +203,102 @@ Definition add_child (st : wf) (kind : nat) (label : string) : wf * res :=
 
 Definition child_ids (c : child) : list nat := (map snd (c_ins c) ++ map snd (c_outs c))%list.
 
-(* Composite.remove_child: pop (KeyError), child.disconnect(), cache dropped *)
+(* children.pop(label) / list.remove: the first child carrying the label, and the others *)
+Fixpoint take_child (l : string) (cs : list child) : option (child * list child) :=
+  match cs with
+  | [] => None
+  | c :: r => if String.eqb l (c_label c) then Some (c, r)
+              else match take_child l r with Some (x, r') => Some (x, c :: r') | None => None end
+  end.
+
+Definition relabel (c : child) (l : string) : child :=
+  {| c_label := l; c_kind := c_kind c; c_ins := c_ins c; c_outs := c_outs c |}.
+
+(* Composite.remove_child: pop (KeyError), child.disconnect(), cache dropped; the caller keeps
+   the node object (shelf) *)
 Definition remove_child (st : wf) (label : string) : wf * res :=
-  match find_child label (w_children st) with
+  match take_child label (w_children st) with
   | None => (st, RExc KeyErr)
-  | Some c =>
+  | Some (c, cs) =>
       let ids := child_ids c in
-      let cs := filter (fun c' => negb (String.eqb label (c_label c'))) (w_children st) in
       let cn := filter (fun p => negb (memn (fst p) ids || memn (snd p) ids)) (w_conns st) in
-      (set_cache (set_conns (set_children st cs) cn) None, ROk)
+      (set_shelf (set_cache (set_conns (set_children st cs) cn) None) (c :: w_shelf st), ROk)
+  end.
+
+(* wf.add_child(node, label=nl) for a node object removed earlier (found by its current label) *)
+Definition readd (st : wf) (sl : string) (nl : option string) : wf * res :=
+  match take_child sl (w_shelf st) with
+  | None => (st, RExc NoRef)
+  | Some (c, rest) =>
+      let st0 := set_cache st None in
+      let l := match nl with Some x => x | None => c_label c end in
+      if mems l (map c_label (w_children st)) then (st0, RExc AttrErr)
+      else (set_shelf (set_children st0 (w_children st ++ [relabel c l])%list) rest, ROk)
+  end.
+
+(* wf.add_child(wf.children[cur], label=new): LexicalParent.add_child pops the child from the
+   bidict and stores it again under the new label, i.e. at the END; connections stay *)
+Definition relabel_child (st : wf) (cur new : string) : wf * res :=
+  match take_child cur (w_children st) with
+  | None => (st, RExc NoRef)
+  | Some (c, rest) =>
+      let st0 := set_cache st None in
+      if String.eqb cur new then (st0, ROk)
+      else if mems new (map c_label (w_children st)) then (st0, RExc AttrErr)
+      else (set_children st0 (rest ++ [relabel c new])%list, ROk)
+  end.
+
+(* Workflow.replace_child(cur, node), in the region the driver exercises: the replaced child has
+   no data connection, the replacement is of the same kind (a fresh node labelled "spare" or a
+   node removed earlier), both panels can be read and expose no connected channel (otherwise
+   _rebuild_data_io is entered: C14).  Then: copy_io copies the old values, the old child is
+   removed (and kept by the caller under the replacement's label), the replacement is adopted
+   under the old label at the END of the children, the cache is dropped. *)
+Fixpoint copy_vals (st : wf) (from to : list (string * nat)) (vs : list (nat * Z)) : list (nat * Z) :=
+  match from, to with
+  | (_, f) :: r, (_, t) :: r' =>
+      copy_vals st r r' (match val st f with Some v => upd Nat.eqb t v vs | None => vs end)
+  | _, _ => vs
+  end.
+
+Definition exposes_connected (st : wf) (p : panel) : bool := existsb (fun e => connected st (snd e)) p.
+
+Definition replace_child (st : wf) (cur : string) (src : option string) : wf * res :=
+  match take_child cur (w_children st) with
+  | None => (st, RExc NoRef)
+  | Some (c, rest) =>
+      let repl :=
+        match src with
+        | None =>
+            let sp := kind_spec (c_kind c) in
+            let n := w_next st in
+            let ins := number n (map fst (k_ins sp)) in
+            let outs := number (n + List.length (k_ins sp)) (k_outs sp) in
+            Some ({| c_label := "spare"; c_kind := c_kind c; c_ins := ins; c_outs := outs |},
+                  w_shelf st, set_defaults ins (k_ins sp) (w_vals st),
+                  n + List.length (k_ins sp) + List.length (k_outs sp))
+        | Some sl =>
+            match take_child sl (w_shelf st) with
+            | Some (r, sh) => Some (r, sh, w_vals st, w_next st)
+            | None => None
+            end
+        end in
+      match repl with
+      | None => (st, RExc NoRef)
+      | Some (r, sh, vs, nx) =>
+          let ok := Nat.eqb (c_kind c) (c_kind r)
+                    && negb (existsb (connected st) (child_ids c))
+                    && match build_io st DIn, build_io st DOut with
+                       | Some pi, Some po => negb (exposes_connected st pi) && negb (exposes_connected st po)
+                       | _, _ => false
+                       end in
+          if negb ok then (st, RExc Skip)
+          else
+            let vs1 := copy_vals st (c_ins c) (c_ins r) vs in
+            let vs2 := copy_vals st (c_outs c) (c_outs r) vs1 in
+            let st1 := set_children st (rest ++ [relabel r (c_label c)])%list in
+            (set_shelf (set_cache (set_next (set_vals st1 vs2) nx) None) (relabel c (c_label r) :: sh), ROk)
+      end
   end.
 
 Definition pair_eqb (a b : nat * nat) : bool := Nat.eqb (fst a) (fst b) && Nat.eqb (snd a) (snd b).
@@ -390,7 +480,10 @@ Inductive op :=
 | OSetMap (d : dir) (m : option (list (string * option string)))
 | OAssign (key : string) (v : Z)
 | OWConnect (key oc ol : string)
-| ORun (kw : list (string * Z)).
+| ORun (kw : list (string * Z))
+| OReadd (shelf_label : string) (new_label : option string)
+| ORelabel (cur new : string)
+| OReplace (cur : string) (src : option string).
 
 Definition step (st : wf) (o : op) : wf * res :=
   match o with
@@ -403,6 +496,9 @@ Definition step (st : wf) (o : op) : wf * res :=
   | OAssign k v => assign st k v
   | OWConnect k oc ol => wconnect st k oc ol
   | ORun kw => run_wf st kw
+  | OReadd sl nl => readd st sl nl
+  | ORelabel c n => relabel_child st c n
+  | OReplace c src => replace_child st c src
   end.
 
 Fixpoint run_ops (st : wf) (ops : list op) : wf :=
@@ -432,7 +528,8 @@ Definition map_obs (m : kmap) : obs :=
   end.
 
 Definition snapshot (st : wf) : obs :=
-  OL [OL (map (child_obs st) (w_children st)); map_obs (w_imap st); map_obs (w_omap st)].
+  OL [OL (map (child_obs st) (w_children st)); map_obs (w_imap st); map_obs (w_omap st);
+      OL (map (fun c => OS (c_label c)) (w_shelf st))].
 
 Definition panel_obs (st : wf) (d : dir) : obs :=
   match build_io st d with
@@ -444,7 +541,7 @@ Definition exc_name (e : exc) : string :=
   match e with
   | TypeErr => "TypeError" | ValueErr => "ValueError" | AttrErr => "AttributeError"
   | KeyErr => "KeyError" | DupErr => "ValueDuplicationError" | NoRef => "noref"
-  | CycleErr => "CircularDataFlowError"
+  | CycleErr => "CircularDataFlowError" | Skip => "skip"
   end.
 
 Definition res_obs (r : res) : obs :=
